@@ -41,8 +41,13 @@ for d in sorted(glob.glob(os.path.join(root, "benign", "C*-*"))):
     finally:
         subprocess.run(["git", "-C", "/repo", "checkout", "--", "."])
         subprocess.run(["git", "-C", "/repo", "clean", "-fdq"])
-    silent = all(v["exit"] == 0 and v["violation_lines"] == 0 for v in res.values())
+    meta = json.load(open(os.path.join(d, "meta.json")))
+    other = (meta.get("breaks_another_property") or {}).get("property")
+    silent = all(v["exit"] == 0 and v["violation_lines"] == 0 for q, v in res.items() if q != other)
     results[name] = {"tier": tier, "checks": res, "silent": silent}
-    print(name, "silent" if silent else "ALARM", {p: v["first_violations"] for p, v in res.items() if v["violation_lines"]})
+    if other:
+        results[name]["breaks_another_property"] = other
+        results[name]["detected_there"] = res.get(other, {}).get("exit") == 1
+    print(name, "silent" if silent else "ALARM", ("(breaks %s, detected there: %s)" % (other, results[name]["detected_there"])) if other else "", {p: v["first_violations"] for p, v in res.items() if v["violation_lines"]})
 json.dump(results, open(rf, "w"), indent=1, sort_keys=True)
 print("benign changes:", len(results), "alarms:", [k for k, v in results.items() if not v.get("silent")])
